@@ -18,8 +18,9 @@ Line-protocol driver for C18 (decimal amount strings <-> 18-decimal integers).
 
 Strings travel as hex of their bytes (a byte b is the character with code b; the
 model only ever inspects ASCII). `parse` of a finite amount whose binary exponent
-exceeds `bigLimit` is answered `unmodelled` (the harness answers `skipped-huge` by
-the same rule: Go would allocate and print an integer of hundreds of megabytes).
+exceeds `bigLimit` is answered `unmodelled` unless the product with `10^d` must
+overflow to Inf (the harness answers `skipped-huge` by the same rule: Go would
+allocate and print an integer of hundreds of megabytes).
 -/
 namespace Rangers.Drive.C18
 open Rangers Rangers.Decimal
@@ -45,8 +46,12 @@ def showBF : BF → String
     let (m', e') := oddNorm (bitLen m + 1) m e
     "fin " ++ b01 n ++ " " ++ toString m' ++ " " ++ toString e'
 
-def tooBig : BF → Bool
-  | .fin _ m e => (bitLen m : Int) + e > bigLimit
+/-- finite, binary exponent above `bigLimit`, and the product with `10^d` not certain
+    to overflow to ±Inf (an overflowing product is answered 0 cheaply by Go). -/
+def tooBig (d : Int) : BF → Bool
+  | .fin _ m e =>
+    (bitLen m : Int) + e > bigLimit &&
+      (bitLen m : Int) + e + (bitLen (10 ^ d.toNat) : Int) - 1 ≤ maxExp
   | _ => false
 
 def showRes (nilWord : String) : Res → String
@@ -60,7 +65,7 @@ def parseGuarded (s : Str) (d : Int) : String :=
   else match parseFloat s with
     | none => "err"
     | some t =>
-      if tooBig t then "unmodelled"
+      if tooBig d t then "unmodelled"
       else showRes "err" (strToBigInt s d)
 
 def okDec (d : Int) : Bool := -1000 ≤ d && d ≤ 5000
